@@ -78,6 +78,90 @@ func c17Work(tokens map[string]string, names []string, seedUser []byte, userTok 
 	return out
 }
 
+// pokeMaps inserts one zero-valued entry under a fixed key into every non-nil map reachable from v
+// (through structs, pointers and slices) - what an application that owns the object is free to do.
+func pokeMaps(v reflect.Value, depth int) {
+	if depth > 8 {
+		return
+	}
+	switch v.Kind() {
+	case reflect.Ptr, reflect.Interface:
+		if !v.IsNil() {
+			pokeMaps(v.Elem(), depth+1)
+		}
+	case reflect.Struct:
+		for i := 0; i < v.NumField(); i++ {
+			if v.Field(i).CanSet() {
+				pokeMaps(v.Field(i), depth+1)
+			}
+		}
+	case reflect.Slice:
+		for i := 0; i < v.Len(); i++ {
+			pokeMaps(v.Index(i), depth+1)
+		}
+	case reflect.Map:
+		if !v.IsNil() && v.Type().Key().Kind() == reflect.String {
+			k := reflect.New(v.Type().Key()).Elem()
+			k.SetString("zz-c17-own-entry")
+			v.SetMapIndex(k, reflect.Zero(v.Type().Elem()))
+		}
+	}
+}
+
+// objects built by the library's constructors belong to whoever built them: a fresh object looks the same
+// whatever other goroutines did to THEIR fresh objects, and filling its maps / lists touches nothing shared
+func c17Fresh(kr *keyring) []string {
+	var out []string
+	add := func(format string, a ...interface{}) { out = append(out, fmt.Sprintf(format, a...)) }
+	apub, opub, upub := kr.by["account"].pub, kr.by["operator"].pub, kr.by["user"].pub
+	mk := func() []interface{} {
+		return []interface{}{jwt.NewAccountClaims(apub), jwt.NewOperatorClaims(opub), jwt.NewUserClaims(upub),
+			jwt.NewActivationClaims(apub), jwt.NewGenericClaims(apub), jwt.NewAuthorizationRequestClaims(upub),
+			jwt.NewAuthorizationResponseClaims(upub), jwt.NewUserScope(), jwt.CreateValidationResults()}
+	}
+	objs := mk()
+	for _, o := range objs {
+		add("fresh %T %s", o, canonString(reflect.ValueOf(o).Elem()))
+	}
+	for _, o := range objs {
+		pokeMaps(reflect.ValueOf(o), 0)
+		switch x := o.(type) {
+		case *jwt.AccountClaims:
+			if x.Limits.JetStreamTieredLimits == nil {
+				x.Limits.JetStreamTieredLimits = jwt.JetStreamTieredLimits{}
+			}
+			x.Limits.JetStreamTieredLimits["R1"] = jwt.JetStreamLimits{DiskStorage: 7}
+			x.SigningKeys.Add(opub)
+			x.RevokeAt("*", time.Unix(5, 0))
+			x.AddMapping("own.m", jwt.WeightedMapping{Subject: "own.t", Weight: 3})
+			x.Tags.Add("own")
+			x.Exports.Add(&jwt.Export{Subject: "own.e", Type: jwt.Stream})
+			x.DefaultPermissions.Pub.Allow.Add("own.p")
+		case *jwt.OperatorClaims:
+			x.SigningKeys.Add(opub)
+			x.OperatorServiceURLs.Add("nats://own:4222")
+			x.Tags.Add("own")
+		case *jwt.UserClaims:
+			x.Pub.Allow.Add("own.p")
+			x.Src.Add("10.0.0.0/8")
+			x.Tags.Add("own")
+			x.AllowedConnectionTypes.Add("WEBSOCKET")
+		case *jwt.GenericClaims:
+			x.Data["own"] = "entry"
+			_ = x
+		case *jwt.UserScope:
+			x.Template.Pub.Allow.Add("own.p")
+		case *jwt.ValidationResults:
+			x.AddError("own %d", 1)
+		}
+		add("filled %T %s", o, canonString(reflect.ValueOf(o).Elem()))
+	}
+	for _, o := range mk() {
+		add("fresh again %T %s", o, canonString(reflect.ValueOf(o).Elem()))
+	}
+	return out
+}
+
 // read-only queries on one shared object
 func c17Shared(ac *jwt.AccountClaims, uc *jwt.UserClaims, act *jwt.ActivationClaims) []string {
 	var out []string
@@ -128,6 +212,7 @@ func runC17(c *Ctx) {
 
 	// sequential baseline (results that do not depend on per-worker keys)
 	norm := func(l []string) string { return strings.Join(l, "\n") }
+	baseFresh := norm(c17Fresh(kr))
 	base := norm(c17Work(tokens, names, useed, userTok))
 	shared, _ := jwt.DecodeAccountClaims(rtok)
 	// a shared object as an application may hold it: built in memory, lists in no particular order
@@ -151,6 +236,7 @@ func runC17(c *Ctx) {
 			var wg sync.WaitGroup
 			res := make([]string, workers)
 			resS := make([]string, workers)
+			resF := make([]string, workers)
 			start := make(chan struct{})
 			for w := 0; w < workers; w++ {
 				wg.Add(1)
@@ -159,6 +245,7 @@ func runC17(c *Ctx) {
 					<-start
 					res[w] = norm(c17Work(tokens, names, useed, userTok))
 					resS[w] = norm(c17Shared(shared, sharedU, sharedA))
+					resF[w] = norm(c17Fresh(kr))
 				}(w)
 			}
 			close(start)
@@ -169,6 +256,10 @@ func runC17(c *Ctx) {
 				if res[w] != base {
 					c.violation("C17: a concurrent run on the worker's own objects gives other results than the sequential run",
 						map[string]interface{}{"gomaxprocs": procs, "round": r, "worker": w, "diff": firstDiff(base, res[w])})
+				}
+				if resF[w] != baseFresh {
+					c.violation("C17: objects built by the library's constructors are not independent (a fresh object, or one whose own maps / lists were filled, looks different after other objects were used)",
+						map[string]interface{}{"gomaxprocs": procs, "round": r, "worker": w, "diff": firstDiff(baseFresh, resF[w])})
 				}
 				if resS[w] != baseShared {
 					c.violation("C17: read-only queries on a shared object give other results under concurrency",
@@ -186,5 +277,5 @@ func runC17(c *Ctx) {
 	}
 	c.sample(map[string]interface{}{"worker_results_lines": len(strings.Split(base, "\n")), "first_lines": strings.Split(base, "\n")[:4], "shared_queries": strings.Split(baseShared, "\n")[:3]})
 	c.sum.DistinctNontriv = len(distinct)
-	c.sum.Rule = fmt.Sprintf("%d goroutines x %d rounds at GOMAXPROCS 1, 2, 4, 16, built with the race detector: every worker decodes the same token texts (all kinds, v1 and v2) into objects of its own and validates, prints, queries, mutates, re-encodes them and round-trips a credentials file through the package-level regular expression; every worker also runs the read-only queries on one shared account / user / activation; results compared with a sequential run; a race report fails the check; non-trivial = distinct (GOMAXPROCS, round)", workers, rounds)
+	c.sum.Rule = fmt.Sprintf("%d goroutines x %d rounds at GOMAXPROCS 1, 2, 4, 16, built with the race detector: every worker decodes the same token texts (all kinds, v1 and v2) into objects of its own and validates, prints, queries, mutates, re-encodes them and round-trips a credentials file through the package-level regular expression; every worker also builds fresh objects with every constructor, fills their maps and lists and compares fresh/filled/fresh-again dumps with the first sequential run; every worker also runs the read-only queries on one shared account / user / activation; results compared with a sequential run; a race report fails the check; non-trivial = distinct (GOMAXPROCS, round)", workers, rounds)
 }
